@@ -32,6 +32,8 @@ def reset_counts():
 def shaped(base, shape):
     if shape is None:
         return base
+    if shape[0] == "none":
+        return None  # a function that legitimately returns None (side-effect only / "nothing found")
     if shape[0] == "tuple":
         return tuple(Sym("el", base, i) for i in range(shape[1]))
     if shape[0] == "list":
